@@ -390,4 +390,38 @@ theorem denied_message_reaches_no_one (t : Tx) (c a : ConnId) (m : Msg) (d : Byt
     (route t c m).2 = some e ∧ (route t c m).1.out = t.out ∧ (route t c m).1.bus = (t.setPending p).bus :=
   Dbus.Props.C05.refused_no_delivery t c a m d p e hd ha hpol
 
+/-! ### the configuration is reloaded -/
+
+theorem find?_map_id (l : List Conn) (g : Conn → Conn) (hid : ∀ x, (g x).id = x.id) (c : ConnId) :
+    (l.map g).find? (·.id == c) = (l.find? (·.id == c)).map g := by
+  induction l with
+  | nil => rfl
+  | cons x xs ih =>
+    simp only [List.map_cons, List.find?_cons, hid x]
+    cases (x.id == c) <;> simp [ih]
+
+/-- **After a reload every registered connection is judged by the new policy**: its rule list is the one
+    the new configuration gives its uid and groups — whatever it was allowed before. -/
+theorem reloaded_policy_governs (b : Bus) (p : Policy) (c : ConnId) (x : Conn) (hx : b.conn? c = some x) (hn : x.name.isSome = true) :
+    connPolicy (reloadPolicy b p) c = p.clientRules x.uid x.gids false := by
+  unfold connPolicy Bus.conn? reloadPolicy
+  dsimp only
+  rw [find?_map_id _ _ (fun y => by split <;> rfl)]
+  unfold Bus.conn? at hx
+  rw [hx]
+  simp [hn]
+
+/-- **A RequestName the new policy denies changes nothing — also for a connection that already owns the
+    name or waits for it.** The own check comes before anything else is looked at: after a reload
+    under which `c` may no longer own `n`, its request is refused with AccessDenied and queue, flags and
+    primary owner stay as they are. -/
+theorem own_denied_after_reload (t : Tx) (p : Policy) (c : ConnId) (x : Conn) (n : Bytes) (flags : Nat)
+    (hx : t.bus.conn? c = some x) (hn : x.name.isSome = true)
+    (hden : canOwn (p.clientRules x.uid x.gids false) n = false)
+    (h1 : validateBusName n = true) (h2 : (n.head? == some 0x3a) = false) (h3 : (n == BUS_NAME) = false) :
+    acquire { t with bus := reloadPolicy t.bus p } c n flags = ({ t with bus := reloadPolicy t.bus p }, .error .accessDenied) := by
+  unfold acquire
+  have hp := reloaded_policy_governs t.bus p c x hx hn
+  simp only [h1, h2, h3, hp, hden, Bool.not_true, Bool.false_eq_true, if_false, Bool.not_false, if_true]
+
 end Dbus.Props.C06
